@@ -95,7 +95,13 @@ impl<T: Write + Read + Seek> PagedWriter<T> {
     fn read_current_page(&mut self) -> std::io::Result<()> {
         let mut unread = &mut self.page_buffer[..];
         while !unread.is_empty() {
-            let read = self.writer.read(unread)?;
+            let read = match self.writer.read(unread) {
+                Ok(read) => read,
+                // An interrupted read must be retried. Forwarding it would make callers like
+                // write_all() repeat a write() call that already consumed its data.
+                Err(err) if err.kind() == std::io::ErrorKind::Interrupted => continue,
+                Err(err) => return Err(err),
+            };
             if read == 0 {
                 break;
             }
